@@ -21,6 +21,7 @@ def run(tier):
     rep = run_harness("hcore", ["float-pow", "--what", "special", "--tables", ",".join(files), "--samples",
                                 "2" if tier == "quick" else "40", "--seed", str(seed()), "--k", "64"], timeout=3000)
     absorb_float(chk, rep, "special point vs reference")
+    report_known(chk, rep, "C10", how="parts at the listed arguments are exactly 0 where a tiny non-zero value is expected")
     chk.cov["float_parts_compared"] = rep["parts_compared"]
     if rep["distinct_cases"] < 8000:
         raise ToolError("vacuity: %d (type, special point) cases" % rep["distinct_cases"])
